@@ -302,7 +302,7 @@ func ardDecodeImpl(ftype byte, isTCP bool, chunks [][]byte) string {
 
 func runC14(ctx *Ctx) error {
 	r, res := ctx.Rng, ctx.Res
-	res.Rule = "(1) correspondence: crc16Sum on random byte strings vs the model and vs an independent register implementation; writeCtrlFrame in both modes; readFrameOfType driven as decodeTNCStream drives it over random streams (serial: command and data frames mixed; TCP: one kind), split arbitrarily, with truncations, flipped bytes, data frames of 0..2 bytes, of 65533..65535 bytes and unknown type bytes, vs the model's decoder; parseCtrlMsg on known commands with and without parameters, 'now ' echoes, case variations, lists, numbers incl. out of range, and random printable lines. (2) end-to-end against a scripted ARDOP TNC in serial mode (one in-memory link delivering at most 1..64 bytes per read) and, where loopback TCP is available, in TCP mode (two sockets): Open (INITIALIZE..GRIDSQUARE), Dial or Listen/Accept, ARQ frames of 0..65532 bytes interleaved with PTT, BUFFER, BUSY, IDF/FEC frames and unknown lines, Read with random buffer sizes incl. a slow reader, Write incl. > 65535 bytes and CRCFAULT injections (1, 2 and 3 faults), Flush that must not return before BUFFER 0, Close, TNC.Close. Oracles from the property text: Read = concatenation of ARQ payloads in order; the TNC keeps frames whose payloads concatenate to the bytes Write reported as accepted, each frame with correct prefix/length/CRC (checked by the simulator's own CRC code); retransmissions are byte-identical; PTT calls equal the PTT lines in order; malformed input gives errors, not crashes. The wire frames and the PTT/queue outcome are also compared with the model. Non-trivial: scenario moving data in both directions with link pieces smaller than a frame; distinct by scenario parameters."
+	res.Rule = "(1) correspondence: crc16Sum on random byte strings vs the model and vs an independent register implementation; writeCtrlFrame in both modes; readFrameOfType driven as decodeTNCStream drives it over random streams (serial: command and data frames mixed; TCP: one kind), split arbitrarily, with truncations, flipped bytes, data frames of 0..2 bytes, of 65533..65535 bytes and unknown type bytes, vs the model's decoder; parseCtrlMsg on known commands with and without parameters, 'now ' echoes, case variations, lists, numbers incl. out of range, and random printable lines. (2) end-to-end against a scripted ARDOP TNC in serial mode (one in-memory link delivering at most 1..64 bytes per read) and, where loopback TCP is available, in TCP mode (two sockets): Open (INITIALIZE..GRIDSQUARE), Dial or Listen/Accept, ARQ frames of 0..65532 bytes interleaved with PTT, BUFFER, BUSY, IDF/FEC frames and unknown lines, Read with random buffer sizes incl. a slow reader, Write incl. > 65535 bytes and CRCFAULT injections (1, 2 and 3 faults; also while another subscriber of the TNC's status messages (TNC.ListenEnabled) has stopped reading them), Flush that must not return before BUFFER 0, Close, TNC.Close. Oracles from the property text: Read = concatenation of ARQ payloads in order; the TNC keeps frames whose payloads concatenate to the bytes Write reported as accepted, each frame with correct prefix/length/CRC (checked by the simulator's own CRC code); retransmissions are byte-identical; PTT calls equal the PTT lines in order; malformed input gives errors, not crashes. The wire frames and the PTT/queue outcome are also compared with the model. Non-trivial: scenario moving data in both directions with link pieces smaller than a frame; distinct by scenario parameters."
 	log.SetOutput(io.Discard)
 
 	var lines, impl, sites []string
@@ -469,6 +469,12 @@ func runC14(ctx *Ctx) error {
 				sc.faults[k] = 0 // CRCFAULT exists on the serial interface only; and it is not combined with stale BUFFER reports (known finding below)
 			}
 		}
+		if !sc.tcp && sc.id%3 != 2 && sc.fault == "" && i%10 == 6 {
+			// an application component subscribed to state changes (TNC.ListenEnabled) and stopped
+			// reading them: the very next message from the TNC is the CRCFAULT for the first Write
+			sc.stalled = true
+			sc.faults[0] = 1
+		}
 		ctx.Mark(sc.describe())
 		fails, extra := sc.run(r)
 		if len(fails) > 0 && c14Timing(fails) {
@@ -589,6 +595,7 @@ type c14Scenario struct {
 	inbound  [][]byte
 	outbound [][]byte
 	faults   []int
+	stalled  bool // another subscriber of the TNC's status messages stops reading them
 }
 
 func (sc c14Scenario) describe() string {
@@ -598,6 +605,9 @@ func (sc c14Scenario) describe() string {
 	}
 	for _, d := range sc.outbound {
 		out = append(out, fmt.Sprint(len(d)))
+	}
+	if sc.stalled {
+		out = append(out, "stalled-status-subscriber")
 	}
 	return fmt.Sprintf("id=%d my=%s peer=%s maxseg=%d accept=%v tcp=%v fault=%s in=[%s] out=[%s] crcfaults=%v",
 		sc.id, sc.mycall, sc.peer, sc.maxSeg, sc.accept, sc.tcp, sc.fault, strings.Join(in, ","), strings.Join(out, ","), sc.faults)
@@ -928,6 +938,13 @@ func (sc c14Scenario) run(r Rng) (fails []Failure, extra [][3]string) {
 		}
 
 		// ---- host -> TNC
+		if sc.stalled {
+			sr := tnc.ListenEnabled()
+			defer sr.Close()
+			time.Sleep(5 * time.Millisecond)
+			sim.say("NEWSTATE ISS") // handed to the subscriber, which never takes the next one
+			time.Sleep(30 * time.Millisecond)
+		}
 		var accepted []byte
 		for i, w := range sc.outbound {
 			sim.mu.Lock()
